@@ -370,7 +370,7 @@ def b_list(it, args, kw):
     if isinstance(args[0], SymSeq):
         s = args[0]
         return SymSeq(s.name + "'", s.n, s.maker, "list")
-    return list(_listify(it, args[0]))
+    return list(it.any_set_order(args[0], _listify(it, args[0])))
 
 
 def b_tuple(it, args, kw):
@@ -379,7 +379,7 @@ def b_tuple(it, args, kw):
     if isinstance(args[0], SymSeq):
         s = args[0]
         return SymSeq(s.name + "'", s.n, s.maker, "tuple")
-    return tuple(_listify(it, args[0]))
+    return tuple(it.any_set_order(args[0], _listify(it, args[0])))
 
 
 def b_set(it, args, kw):
